@@ -22,7 +22,7 @@
 EXTENDS HeightSub, Json, IOUtils
 
 Trace == ndJsonDeserialize(IOEnv.TRACE)
-VARIABLES l, bad, prevH
+VARIABLES l, bad, prevH, prevRes, avail
 SetOf(s) == {s[i] : i \in DOMAIN s}
 If(c, name) == IF c THEN {name} ELSE {}
 
@@ -31,17 +31,26 @@ Matches(s, e) == /\ s.height = e.height
                  /\ \A w \in Waiters : s.wpc[w] = e.pcs[w] /\ s.wres[w] = e.res[w]
 
 \* clauses over the recorded observation (no model state involved)
-Clauses(e, ph) ==
-  LET sto == SetOf(e.stored) IN
-       If(e.height < ph, "C17_Height_never_decreases")
-  \cup If(\E w \in Waiters : e.res[w] = "ok" /\ e.wants[w] \notin sto, "C12_returns_nil_only_once_the_height_is_available")
-  \cup If(\E w \in Waiters : e.res[w] = "elapsed" /\ e.wants[w] > e.height, "C12_elapsed_only_at_or_below_Height")
+\* pr = the waiters' results before this event: a result is judged at the step that produced it (with Init calls in the walk
+\* what is available shrinks afterwards).  A release for a height that a deletion (an Init call) has taken away again is the
+\* recorded observation of HeightSub.tla (OkAtWake): reported under OBS_, outside C12's quantifier (appends, cancellations,
+\* other waiters — no deletions)
+Clauses(e, ph, pr, avl) ==
+  LET sto == SetOf(e.stored)
+      newly(w, r) == e.res[w] = r /\ pr[w] # r IN
+       If(e.height < ph /\ e.p # "I", "C17_Height_never_decreases")
+  \cup If(\E w \in Waiters : newly(w, "ok") /\ e.wants[w] \notin sto /\ ~e.hasInit, "C12_returns_nil_only_once_the_height_is_available")
+  \cup If(\E w \in Waiters : newly(w, "ok") /\ ~avl[w],
+          IF e.hasInit THEN "OBS_released_although_its_height_was_never_available_to_it" ELSE "C12_returns_nil_only_once_the_height_is_available")
+  \cup If(\E w \in Waiters : newly(w, "elapsed") /\ e.wants[w] > e.height, "C12_elapsed_only_at_or_below_Height")
   \cup If(e.a = "drain" /\ \E w \in Waiters : e.pcs[w] = "waiting" /\ (e.wants[w] \in sto \/ e.wants[w] <= e.height),
           "C12_wakes_once_the_header_is_stored")
   \cup If(\E w \in Waiters : e.cancelled[w] /\ e.pcs[w] = "waiting", "C12_cancelled_context_releases_caller")
   \cup If(\E w \in Waiters : e.res[w] \notin {"", "ok", "elapsed", "ctx"}, "C12_unexpected_error")
 
-TInit == l = 1 /\ st = Init0 /\ bad = FALSE /\ prevH = 0
+NoRes == [w \in Waiters |-> ""]
+NoAv == [w \in Waiters |-> FALSE]
+TInit == l = 1 /\ st = Init0 /\ bad = FALSE /\ prevH = 0 /\ prevRes = NoRes /\ avail = NoAv
 
 TNext ==
   /\ l <= Len(Trace)
@@ -50,7 +59,11 @@ TNext ==
          s0    == IF fresh THEN Init0 ELSE st
          b0    == IF fresh THEN FALSE ELSE bad
          ph    == IF fresh THEN 0 ELSE prevH
-         F     == Clauses(e, ph)
+         pr    == IF fresh THEN NoRes ELSE prevRes
+         av0   == IF fresh THEN NoAv ELSE avail
+         \* (computed from the recorded observations alone: started waiters whose height is among the stored ones now)
+         av1   == [w \in Waiters |-> av0[w] \/ (e.wants[w] # 0 /\ e.wants[w] \in SetOf(e.stored))]
+         F     == Clauses(e, ph, pr, av1)
          model == e.a \in {"call", "step", "cancel"}
          cands == IF model /\ ~b0 THEN {s \in Do(s0, e.p, e.a, e.x) : Matches(s, e)} ELSE {}
      IN /\ IF F = {} THEN TRUE ELSE PrintT(ToJson([k |-> "FAIL", l |-> l, tr |-> e.tr, i |-> e.i, preds |-> F, cfg |-> e.cfg]))
@@ -59,9 +72,9 @@ TNext ==
                 /\ bad' = TRUE /\ st' = s0
            ELSE IF model /\ ~b0 THEN bad' = FALSE /\ st' \in cands
            ELSE bad' = b0 /\ st' = s0
-        /\ prevH' = e.height
+        /\ prevH' = e.height /\ prevRes' = [w \in Waiters |-> e.res[w]] /\ avail' = av1
   /\ l' = l + 1
 
-TSpec == TInit /\ [][TNext]_<<l, st, bad, prevH>>
+TSpec == TInit /\ [][TNext]_<<l, st, bad, prevH, prevRes, avail>>
 Consumed == TLCGet("stats").diameter - 1 = Len(Trace)
 =============================================================================
